@@ -1,6 +1,8 @@
 SPECIFICATION MCSpec
 CONSTANTS
   NotCleared <- MCNotCleared
+  FailOutcomes = {"leak", "clean"}
+  MaxObjs = 3
   MaxSteps = 6
 INVARIANTS NoResidue PoolTypeOK
 PROPERTIES AcquireClean
